@@ -233,7 +233,14 @@ int main(int argc, char** argv) {
             k.threads = c.chance(1, 2) ? 1 : c.range(2, std::max(2, gMaxThreads));
             int n = c.range(3, maxRoots);
             // classes that are drawn throughout (K+minor v K) get a quarter of the weight of the others
-            auto pickClass = [&]() { std::string k = c.of(gClasses); if (k.size() == 3 && strchr("BNbn", k[1] == 'k' ? k[2] : k[1]) && !c.chance(1, 4)) k = c.of(gClasses); return k; };
+            std::vector<std::string> four, three;
+            for (auto& k : gClasses) (k.size() >= 4 ? four : three).push_back(k);
+            auto pickClass = [&]() {
+                if (!four.empty() && (three.empty() || c.chance(1, 2))) return c.of(four);
+                std::string k = c.of(three);
+                if (strchr("BNbn", k[1] == 'k' ? k[2] : k[1]) && !c.chance(1, 4)) k = c.of(three); // K+minor v K: all drawn, lower weight
+                return k;
+            };
             std::string cls = pickClass();
             for (int i = 0; i < n && (i < 3 || !c.empty()); i++) {
                 if (i > 0 && c.chance(1, 4)) cls = pickClass();
